@@ -165,6 +165,9 @@ func (c *Cluster) serveScan(rs *RS, sc *ServerConn, req *Request, p *pb.ScanRequ
 				sc.Send(Response{CallID: req.CallID, Msg: &pb.ScanResponse{MoreResults: proto.Bool(false)}})
 				return
 			}
+			if p.GetRenew() {
+				c.Trace.Emit("scanRenew", "scanner", -1, "known", false)
+			}
 			c.sendExc(sc, req, ExcUnknownScanner)
 			return
 		}
@@ -174,7 +177,7 @@ func (c *Cluster) serveScan(rs *RS, sc *ServerConn, req *Request, p *pb.ScanRequ
 		}
 		if p.GetRenew() {
 			c.mu.Unlock()
-			c.Trace.Emit("scanRenew", "scanner", int(scn.id))
+			c.Trace.Emit("scanRenew", "scanner", int(scn.id), "known", true)
 			sc.Send(Response{CallID: req.CallID, Msg: &pb.ScanResponse{ScannerId: proto.Uint64(scn.id), MoreResultsInRegion: proto.Bool(true), MoreResults: proto.Bool(true)}})
 			return
 		}
